@@ -176,6 +176,21 @@ func (w *Worktree) PullContext(ctx context.Context, o *PullOptions) error {
 		return err
 	}
 
+	// A pull that is going to be refused because of unstaged changes must be
+	// refused before the branch is moved, not after: Reset makes the same
+	// check, but by then the branch already points at the fetched commit.
+	cfg, err := w.r.Config()
+	if err != nil {
+		return err
+	}
+	unstaged, err := w.containsUnstagedChanges(cfg)
+	if err != nil {
+		return err
+	}
+	if unstaged {
+		return ErrUnstagedChanges
+	}
+
 	if err := w.updateHEAD(ref.Hash()); err != nil {
 		return err
 	}
